@@ -408,6 +408,30 @@ theorem C11_repaired_impossible_cell_vacuous :
       | .ok t => decide ((t[1]).u == 1.0) | .error _ => false) = true := by
   decide +kernel
 
+/-! ### C11, recorded finding (NOT repaired; `known_findings.txt`, `op=merge oracle=equals_composition`): a joint cell that is possible
+    only under a `y` with a small base rate.  Y|X1 = [([5/16, 0], 11/16), ([5/16, 1/8], 9/16)], Y|X2 vacuous, a_X1 = [3/8, 5/8],
+    a_X2 = [1/4, 3/4], a_Y = [1 - 2^-40, 2^-40]: X2 is irrelevant and the exact merged conditional of the cells (1, ·) is
+    ([0, 3/64], 61/64) (theorems of `Props/C11`); the float evaluation of the model -- bit for bit what the crate returns, see
+    pinned/C11_small_ay_pinned_harness_output.txt -- has b[1] = 0.046856696602889644 in cell (1,0): the positive residue that the
+    products leave in an exactly-zero joint mass is divided by a marginal base rate of the order 2^-40. -/
+
+def fsa2 (a b u : Float) : Simplex Float 2 := ⟨#v[a, b], u⟩
+def fyX1 : CondTab Float 2 2 := #v[fsa2 (5.0 / 16.0) 0.0 (11.0 / 16.0), fsa2 (5.0 / 16.0) (1.0 / 8.0) (9.0 / 16.0)]
+def fyX2 : CondTab Float 2 2 := #v[fsa2 0.0 0.0 1.0, fsa2 0.0 0.0 1.0]
+def faX1 : Tab Float 2 := #v[3.0 / 8.0, 5.0 / 8.0]
+def faX2 : Tab Float 2 := #v[1.0 / 4.0, 3.0 / 4.0]
+def faYs : Tab Float 2 := #v[Float.ofBits 0x3FEFFFFFFFFFE000, Float.ofBits 0x3D70000000000000]
+
+/-- C11 (current model = current crate, binary64): cell (1,0) of the merged table has b[1] = 0x3FA7FD99D7041946
+    (0.0468567…) where the exact value is 3/64 = 0x3FA8000000000000; the result is well-formed and the other parent order
+    gives the same wrong value -/
+theorem C11_finding_small_ay_float :
+    (match mergeCond2 false fyX1 fyX2 faX1 faX2 faYs with
+      | .ok t => decide (Float.toBits ((t[2]).b[1]) = 0x3FA7FD99D7041946)
+          && decide (Float.toBits ((t[2]).b[1]) ≠ 0x3FA8000000000000) && decide ((t[2]).b[0] ≥ 0.0) && decide ((t[2]).u ≤ 1.0)
+      | .error _ => false) = true := by
+  decide +kernel
+
 /-! ### C09: `uncertainty_maximized` under a base rate whose float sum is 1 + 3ε (accepted by the constructors);
     before repair f029db5 the result was not renormalised -/
 
